@@ -116,7 +116,12 @@ class C16(Check):
         assert RL.to_raw(node_for("time-micros"), dt.time(23, 59, 59, 999999)) == 86399999999
 
     def extra_coverage(self):
-        return {"enumerated_values": self.enumerated}
+        out = {"enumerated_values": self.enumerated}
+        if getattr(self, "_tier", None) == "thorough":
+            out["exhaustive_subdomains"] = ["date: every day 0001-01-01..9999-12-31 (3652059 values)", "time-millis: every millisecond of the day (86400000 values)"]
+        else:
+            out["exhaustive_subdomains"] = []
+        return out
 
     # ------------------------------------------------------------------ enumerated chunks
     def _chunks(self, tier):
@@ -141,6 +146,7 @@ class C16(Check):
         return out
 
     def fixed_cases_for_shard(self, tier, shard, nshards):
+        self._tier = tier
         chunks = self._chunks(tier)
         mine = [c for i, c in enumerate(chunks) if i % nshards == shard]
         if shard == 0:
